@@ -217,6 +217,14 @@ def run_shard(spec):
         want = b''.join(bytes([b]) + bytes([b]) + b'\n' + (b'true' if b > 127 else b'false') + b' ' + (b'true' if b % 2 == 0 else b'false') + b'\n\n' for b in range(256))
         want += b'truefalsetrue\nfalse\n'
         expect_run(res, src, [str(b) for b in range(256)], spec['word'], want, 'write(byte)/write(bool)', [runner.case_id('byte', b, spec['word']) for b in range(256)])
+        # write(bool) of values that were converted to bool (ints, bytes, lengths): every non-zero value prints true, whatever its low byte
+        bits = 8 * spec['word']
+        hi, lo = (1 << (bits - 1)) - 1, -(1 << (bits - 1))
+        ints = [0, 1, 2, 255, 256, 257, 512, -1, -255, -256, -257, -512, 1 << (bits - 2), hi, lo, lo + 1, lo + 256, hi - 255]
+        src2 = ('empty show(bool b) { write(b); write(\' \'); }\nempty @is_you(const int[] v) { for (int i = 0; i < v.length; i += 1) { write(v[i] is bool); write(\' \'); '
+                'bool k = v[i] is bool; writeln(k); show(v[i] is bool); write((v[i] is byte) is bool); write(\' \'); writeln(not (v[i] is bool)); } }\n')
+        want2 = b''.join((b'true true\ntrue ' if v else b'false false\nfalse ') + (b'true ' if v & 0xFF else b'false ') + (b'false\n' if v else b'true\n') for v in ints)
+        expect_run(res, src2, [str(v) for v in ints], spec['word'], want2, 'write(bool) of converted values', [runner.case_id('boolconv', v, spec['word']) for v in ints])
         res['exhaustive'] = True
     elif k == 'arrays':
         r = random.Random(spec['seed'] * 17 + spec['part'])
